@@ -71,6 +71,7 @@ def handle (prop : String) (line : String) : String :=
       | "buildv" => opBuildV args res
       | "buildvh" => opBuildV (args.take 4) res   -- same configuration, reached on a reused builder
       | "buildh" => opBuild prop (args.take 5) res
+      | "buildafter" => opBuild prop (args.take 5) res
       | "classify" => opClassify args res
       | "build" => opBuild prop args res
       | "buildx" =>
